@@ -1,10 +1,11 @@
-\* exhaustive, every interleaving of SDK-internal and environment steps: profiles a b c d2 e e2 f g
-SPECIFICATION Spec
+\* seam-level graphs of profiles a..g for the transition cover
+SPECIFICATION SettledSpec
 CONSTANTS
   NC = 3
-  Profiles <- ProfMC
+  Profiles <- ProfCover
   FixCancel = FALSE
   FixStream = FALSE
 INVARIANTS TypeOK SessionHeader VersionHeader OnePostPerMessage Standalone PerMessage Usable GoneStops GoneNoDelete GoneFailsAll
   TerminalFailsPending DeleteOnce DeleteWhenLive CloseWaits StandaloneCancelled RetiredOnce
+VIEW CoverView
 CHECK_DEADLOCK FALSE
